@@ -79,7 +79,12 @@ PoolAbs == << Abs(<<>>), AllA, Abs(<<Step("child", T_any)>>), CountE(Abs(<<DoS, 
               Rel(<<Step("following", T_node), Step("preceding", T_node)>>), Abs(<<DoS, Step("self", T_nsany("p"))>>),
               Filter(AllA, <<>>, <<Step("parent", T_node)>>), Rel(<<Step("attribute", T_any), Step("parent", T_node), Step("attribute", T_any)>>),
               Rel(<<Step("namespace", T_any), Step("parent", T_any)>>), Rel(<<Step("attribute", T_any), Step("following", T_node)>>),
-              Rel(<<Step("namespace", T_any), Step("preceding", T_node)>>) >>
+              Rel(<<Step("namespace", T_any), Step("preceding", T_node)>>),
+              \* inside a predicate evaluated for several context nodes: the argument of count() starts with an absolute path, but
+              \* its other operand depends on the context node
+              Abs(<<DoS, StepP("child", T_node, <<Bin("eq", CountE(Bin("union", Abs(<<Step("child", T_any)>>), Rel(<<Step("preceding-sibling", T_node)>>))), IntE(2))>>)>>),
+              Abs(<<DoS, StepP("child", T_node, <<Call(<<"b","o","o","l","e","a","n">>, <<Bin("eq", Abs(<<Step("child", T_any), Step("child", T_node)>>), Rel(<<Self>>))>>)>>)>>),
+              CountE(Abs(<<DoS, StepP("child", T_any, <<Bin("gt", CountE(Bin("union", Abs(<<DoS, Step("child", T_text)>>), Rel(<<Step("ancestor", T_node)>>))), CountE(Abs(<<DoS, Step("child", T_text)>>)))>>)>>)) >>
 \* every two-step path: the second step starts from whatever the first selected (attributes and
 \* namespace nodes included), and its name test is judged against ITS axis' principal node type
 Tests1 == {T_node, T_any}
